@@ -3,8 +3,11 @@
 the outcome in the meta file; prints one line per change.  Scratch worktrees /tmp/seedwork_md/Cxx must exist."""
 import glob, json, os, subprocess, sys
 rows = []
+only = set(sys.argv[1:])            # optional property ids: retest_all.py C01 C02 (run several groups in parallel)
 for p in sorted(glob.glob("/verif/seeded/*/*m[0-9]/meta.json")):
     pid, name = p.split("/")[-3], p.split("/")[-2]
+    if only and pid not in only:
+        continue
     m = json.load(open(p))
     checks = list(m.get("checks_run_against_it", {}).keys()) or [pid]
     wt = f"/tmp/seedwork_md/{pid}"
